@@ -44,7 +44,11 @@ def cases(rng, tier):
                     for rq in scopes:
                         origs = scopes if grant == "refresh_token" else [None]
                         for og in origs:
-                            allc.append({"grant": grant, "gen": gen, "supported": sup, "allowed": al, "requested": rq, "original": og})
+                            for place in ("form", "query", "both"):
+                                if rq is None and place != "form":
+                                    continue
+                                allc.append({"grant": grant, "gen": gen, "supported": sup, "allowed": al, "requested": rq,
+                                             "original": og, "place": place})
     if tier == "thorough":
         n = 60000
     else:
@@ -106,25 +110,33 @@ def impl(c):
     store.clients["p1"] = Client("p1", "", ["https://p1/cb"], c["allowed"], ms.ALL_GRANT_TYPES, ms.ALL_RESPONSE_TYPES, method="none")
     hdr = ms.basic("c1", "s1")
     grant, rq = c["grant"], c["requested"]
-    sc = {} if rq is None else {"scope": rq}
+    place = c.get("place", "form")
+    sc = {} if (rq is None or place == "query") else {"scope": rq}
+    from urllib.parse import urlencode
+    qs = ""
+    if rq is not None and place == "query":
+        qs = "?" + urlencode({"scope": rq})
+    elif rq is not None and place == "both":
+        qs = "?" + urlencode({"scope": "a b c d z"})      # the form value takes precedence in request.data
+    TOK = "https://as.example/token" + qs
     user = store.users[1]
     if grant == "implicit":
-        r = srv.create_authorization_response(Req("GET", "https://as.example/authorize", dict(response_type="token", client_id="p1", **sc)), grant_user=user)
+        r = srv.create_authorization_response(Req("GET", "https://as.example/authorize" + qs, dict(response_type="token", client_id="p1", **sc)), grant_user=user)
         loc = dict(r.headers).get("Location", "")
         frag = dict(parse_qsl(urlparse(loc).fragment, keep_blank_values=True))
         return _result(c, frag if loc else dict(r.body))
     if grant == "password":
-        r = srv.create_token_response(Req("POST", form=dict(grant_type="password", username="1", password="pw", **sc), headers=hdr))
+        r = srv.create_token_response(Req("POST", TOK, form=dict(grant_type="password", username="1", password="pw", **sc), headers=hdr))
         return _result(c, r.body)
     if grant == "client_credentials":
-        r = srv.create_token_response(Req("POST", form=dict(grant_type="client_credentials", **sc), headers=hdr))
+        r = srv.create_token_response(Req("POST", TOK, form=dict(grant_type="client_credentials", **sc), headers=hdr))
         return _result(c, r.body)
     if grant == "jwt_bearer":
         a = ms.jwt_bearer_assertion("c1")
-        r = srv.create_token_response(Req("POST", form=dict(grant_type=ms.JWT_BEARER, assertion=a.decode() if isinstance(a, bytes) else a, **sc)))
+        r = srv.create_token_response(Req("POST", TOK, form=dict(grant_type=ms.JWT_BEARER, assertion=a.decode() if isinstance(a, bytes) else a, **sc)))
         return _result(c, r.body)
     if grant == "authorization_code":
-        r = srv.create_authorization_response(Req("POST", "https://as.example/authorize", dict(response_type="code", client_id="c1", **sc)), grant_user=user)
+        r = srv.create_authorization_response(Req("POST", "https://as.example/authorize" + qs, dict(response_type="code", client_id="c1", **sc)), grant_user=user)
         loc = dict(r.headers).get("Location", "")
         q = dict(parse_qsl(urlparse(loc).query, keep_blank_values=True)) if loc else dict(r.body)
         if "error" in q:
@@ -132,7 +144,7 @@ def impl(c):
         r = srv.create_token_response(Req("POST", form=dict(grant_type="authorization_code", code=q["code"]), headers=hdr))
         return _result(c, r.body)
     if grant == "device_code":
-        r = srv.create_endpoint_response("device_authorization", Req("POST", form=dict(client_id="c1", **sc), headers=hdr))
+        r = srv.create_endpoint_response("device_authorization", Req("POST", "https://as.example/device" + qs, form=dict(client_id="c1", **sc), headers=hdr))
         if "error" in r.body:
             return {"error": r.body["error"]}
         store.user_grants[r.body["user_code"]] = (1, True)
@@ -142,7 +154,7 @@ def impl(c):
     if grant == "refresh_token":
         store.tokens.append(Token(_store=store, access_token="old-at", refresh_token="old-rt", client_id="c1", user_id=1,
                                   scope=c["original"], expires_in=3600, issued_at=CLOCK(), token_type="Bearer"))
-        r = srv.create_token_response(Req("POST", form=dict(grant_type="refresh_token", refresh_token="old-rt", **sc), headers=hdr))
+        r = srv.create_token_response(Req("POST", TOK, form=dict(grant_type="refresh_token", refresh_token="old-rt", **sc), headers=hdr))
         return _result(c, r.body)
     raise AssertionError(grant)
 
